@@ -81,6 +81,21 @@ fn no_zk(mut c: CircuitConfig) -> CircuitConfig {
     c
 }
 
+/// Map `f` over `items`, at most `width()` of them at a time (the prover is itself parallel; many concurrent proofs mostly
+/// compete for memory), results in input order.
+fn width() -> usize {
+    std::env::var("VERIF_RECURSIVE_WIDTH").ok().and_then(|s| s.parse().ok()).unwrap_or(3)
+}
+fn par_map<T: Sync, R: Send>(items: &[T], f: impl Fn(usize, &T) -> R + Sync) -> Vec<R> {
+    let k = width().max(1);
+    let mut out = Vec::with_capacity(items.len());
+    for (c, chunk) in items.chunks(k).enumerate() {
+        let part: Vec<R> = chunk.par_iter().enumerate().map(|(i, x)| f(c * k + i, x)).collect();
+        out.extend(part);
+    }
+    out
+}
+
 /// real prover, then real verifier
 fn prove_verify(data: &Data, pw: PartialWitness<F>) -> Result<Proof, &'static str> {
     let proof = match no_panic(|| data.prove(pw)) {
@@ -287,7 +302,7 @@ fn part_priv(out: &mut Out, rng: &mut Rng, thorough: bool, fl: &FakeLeaf, u: &Un
         let leaf_proofs: Vec<Vec<Proof>> = cases.par_iter().map(|c| c.leaves.iter().map(|l| prove_leaf(fl, l)).collect()).collect();
         let leaf_ms = t0.elapsed().as_millis();
         let t0 = Instant::now();
-        let results: Vec<Result<Proof, &'static str>> = cases.par_iter().zip(leaf_proofs.par_iter()).map(|(c, lp)| run_full_priv(if c.real_cfg { c_real } else { c_nozk }, lp, &c.pre)).collect();
+        let results: Vec<Result<Proof, &'static str>> = par_map(&cases, |i, c| run_full_priv(if c.real_cfg { c_real } else { c_nozk }, &leaf_proofs[i], &c.pre));
         let prove_ms = t0.elapsed().as_millis();
         let ev = CircuitEval::new(&wrap.data);
         let mut cnt = Counts::default();
@@ -303,19 +318,19 @@ fn part_priv(out: &mut Out, rng: &mut Rng, thorough: bool, fl: &FakeLeaf, u: &Un
         // [-1], which the model never produces for fid 601; the required failures are only counted.
         let accepted: Vec<usize> = (0..cases.len()).filter(|&i| results[i].is_ok() && !cases[i].real_cfg).collect();
         let mut altered: Vec<(usize, usize, usize)> = vec![];
-        for k in 0..(if thorough { 6 } else { 2 }).min(accepted.len()) {
+        // every slot in turn (thorough: three times), on a randomly chosen accepted batch
+        for k in 0..(if thorough { 3 * n } else { n }) {
+            if accepted.is_empty() {
+                break;
+            }
             let ci = accepted[rng.below(accepted.len() as u64) as usize];
-            let slot = if k == 0 { n - 1 } else { rng.below(n as u64) as usize };
-            altered.push((ci, slot, *rng.pick(&[1usize, 2, 4, 9, 13, 16, 20])));
+            altered.push((ci, k % n, *rng.pick(&[1usize, 2, 4, 9, 13, 16, 20])));
         }
-        let altered_res: Vec<Result<Proof, &'static str>> = altered
-            .par_iter()
-            .map(|&(ci, slot, j)| {
-                let mut lp = leaf_proofs[ci].clone();
-                lp[slot].public_inputs[j] = lp[slot].public_inputs[j] + F::ONE;
-                run_full_priv(c_nozk, &lp, &cases[ci].pre)
-            })
-            .collect();
+        let altered_res: Vec<Result<Proof, &'static str>> = par_map(&altered, |_, &(ci, slot, j)| {
+            let mut lp = leaf_proofs[ci].clone();
+            lp[slot].public_inputs[j] = lp[slot].public_inputs[j] + F::ONE;
+            run_full_priv(c_nozk, &lp, &cases[ci].pre)
+        });
         let mut altered_rejected = 0usize;
         for (&(ci, slot, j), r) in altered.iter().zip(altered_res.iter()) {
             if r.is_ok() {
@@ -483,18 +498,15 @@ fn part_pub(out: &mut Out, rng: &mut Rng, thorough: bool, fl: &FakeLeaf, u: &Uni
         // children of the children, then the children: all really proved
         let t0 = Instant::now();
         let leaf_proofs: Vec<Vec<Proof>> = pool.par_iter().map(|(ls, _)| ls.iter().map(|l| prove_leaf(fl, l)).collect()).collect();
-        let inner_res: Vec<Result<Proof, &'static str>> = pool.par_iter().zip(leaf_proofs.par_iter()).map(|((_, pre), lp)| run_full_priv(&inner_c, lp, pre)).collect();
+        let inner_res: Vec<Result<Proof, &'static str>> = par_map(&pool, |i, (_, pre)| run_full_priv(&inner_c, &leaf_proofs[i], pre));
         let inner_ms = t0.elapsed().as_millis();
         let inner_failed = inner_res.iter().filter(|r| r.is_err()).count();
         let t0 = Instant::now();
-        let results: Vec<Option<Result<Proof, &'static str>>> = cases
-            .par_iter()
-            .map(|c| {
-                let full = &pubs.iter().find(|(m, _, _)| *m == c.m).unwrap().1;
-                let ps: Option<Vec<&Proof>> = c.inners.iter().map(|&i| inner_res[i].as_ref().ok()).collect();
-                ps.map(|ps| run_full_pub(full, &ps, &c.addr))
-            })
-            .collect();
+        let results: Vec<Option<Result<Proof, &'static str>>> = par_map(&cases, |_, c| {
+            let full = &pubs.iter().find(|(m, _, _)| *m == c.m).unwrap().1;
+            let ps: Option<Vec<&Proof>> = c.inners.iter().map(|&i| inner_res[i].as_ref().ok()).collect();
+            ps.map(|ps| run_full_pub(full, &ps, &c.addr))
+        });
         let pub_ms = t0.elapsed().as_millis();
         let mut cnt = Counts::default();
         let mut dummy_inners = 0usize;
@@ -535,22 +547,24 @@ fn part_pub(out: &mut Out, rng: &mut Rng, thorough: bool, fl: &FakeLeaf, u: &Uni
         // an inner proof whose claimed public inputs were altered after proving (see the private part)
         let accepted: Vec<usize> = (0..cases.len()).filter(|&i| matches!(&results[i], Some(Ok(_)))).collect();
         let mut altered: Vec<(usize, usize, usize)> = vec![];
-        for k in 0..(if thorough { 6 } else { 2 }).min(accepted.len()) {
-            let ci = accepted[rng.below(accepted.len() as u64) as usize];
-            let m = cases[ci].m;
-            let slot = if k == 0 { m - 1 } else { rng.below(m as u64) as usize };
-            altered.push((ci, slot, rng.below((21 * n + 8) as u64) as usize));
+        // for every m, every slot in turn (thorough: twice), on a randomly chosen accepted case of that m
+        for &m in &ms {
+            let acc_m: Vec<usize> = accepted.iter().copied().filter(|&i| cases[i].m == m).collect();
+            for k in 0..(if thorough { 2 * m } else { m }) {
+                if acc_m.is_empty() {
+                    break;
+                }
+                let ci = acc_m[rng.below(acc_m.len() as u64) as usize];
+                altered.push((ci, k % m, rng.below((21 * n + 8) as u64) as usize));
+            }
         }
-        let altered_res: Vec<Result<Proof, &'static str>> = altered
-            .par_iter()
-            .map(|&(ci, slot, j)| {
-                let c = &cases[ci];
-                let full = &pubs.iter().find(|(m, _, _)| *m == c.m).unwrap().1;
-                let mut owned: Vec<Proof> = c.inners.iter().map(|&i| inner_res[i].as_ref().unwrap().clone()).collect();
-                owned[slot].public_inputs[j] = owned[slot].public_inputs[j] + F::ONE;
-                run_full_pub(full, &owned.iter().collect::<Vec<_>>(), &c.addr)
-            })
-            .collect();
+        let altered_res: Vec<Result<Proof, &'static str>> = par_map(&altered, |_, &(ci, slot, j)| {
+            let c = &cases[ci];
+            let full = &pubs.iter().find(|(m, _, _)| *m == c.m).unwrap().1;
+            let mut owned: Vec<Proof> = c.inners.iter().map(|&i| inner_res[i].as_ref().unwrap().clone()).collect();
+            owned[slot].public_inputs[j] = owned[slot].public_inputs[j] + F::ONE;
+            run_full_pub(full, &owned.iter().collect::<Vec<_>>(), &c.addr)
+        });
         let mut altered_rejected = 0usize;
         for (&(ci, slot, j), r) in altered.iter().zip(altered_res.iter()) {
             if r.is_ok() {
